@@ -89,19 +89,21 @@ var plans = map[string]Plan{
 	},
 	"C12": {
 		Level: "exploration",
-		Rule: "cases: (a) envelopes (name 1..2^16 bytes incl. non-UTF-8 and ':'-multiplexed, type 0..127, seqid at int32 boundaries, random struct body) under a drawn segmentation; (b) requests in the three framings with matching / wrong message type, two drawn segmentations (often with a 1-byte first read) and a reply to send back; (c) arbitrary / truncated / header-scrambled / body-mutated request bytes; (d) a complete grid of first-read sizes. " +
-			"Oracle: writers == reference envelope bytes; readers invert; DecodeRequest and ReadRequest classify as sent, agree with each other, ReadRequest is segmentation-independent and accepts whatever DecodeRequest accepts; replies parse (reference decoder) as the request's framing with echoed name/seqid. " +
-			"Non-trivial: non-empty body, or wrong-type envelope, or (for byte cases) accepted by at least one API. Distinct: SHA-256 of the request/envelope bytes (+expected type).",
+		Rule: "cases: (a) envelopes (name 1..2^16 bytes incl. non-UTF-8 and ':'-multiplexed, type 0..127, seqid at int32 boundaries, random struct body) under a drawn segmentation; (b) requests in the three framings with matching / wrong message type, two drawn segmentations (often with a 1-byte first read) and a reply to send back; (c) arbitrary / truncated / header-scrambled / body-mutated request bytes; (d) a complete grid of first-read sizes; (e) histories of 1..6 requests served through the one shared protocol object, each step drawing its API (DecodeRequest, ReadRequest, Protocol.Reader + ReadEnvelopeBegin), framing, seekable / non-seekable segmentation and a handler that knows a drawn subset of the body's field ids and skips (stream.Reader.Skip) the others; (f) internal/envelope server and client, alone or behind 1..3 stacked multiplexers (levels often sharing the service name), with method names that contain ':', equal the service name or start with \"<service>:\". " +
+			"Oracle: writers == reference envelope bytes; readers invert; DecodeRequest and ReadRequest classify as sent, agree with each other, ReadRequest is segmentation-independent and accepts whatever DecodeRequest accepts; replies parse (reference decoder) as the request's framing with echoed name/seqid; every step of a history gives the outcome of the stateless model (known fields of the body, framing, echo) whatever was served before it; the multiplexed client's request carries one \"<service>:\" prefix per level and the service's handler receives exactly the method name the client was given. " +
+			"Non-trivial: non-empty body, or wrong-type envelope, or (for byte cases) accepted by at least one API, or (histories) >= 2 steps with at least one skipped field. Distinct: SHA-256 of the request/envelope bytes (+expected type).",
 		Assumptions: []string{
 			"internal/refcodec envelope/legacy-envelope layout is a correct reading of the Thrift spec",
 			"'accepts' for DecodeRequest includes forcing the lazily decoded body",
 			"internal/envelope, internal/multiplex are reached through the verif-tagged re-export package go.uber.org/thriftrw/verifhook",
+			"a request handler that reads the fields it knows and calls Skip on the others (what generated Decode methods do) must obtain exactly those fields; service names contain no ':' (the multiplex handler splits at the first one)",
 		},
 		Units: []Unit{
 			{Name: "envelope", Pkg: "./checks/c12", Run: "^TestEnvelopeRoundTrip$", Rapid: true, Shards: [2]int{4, 8}, Checks: [2]int{3000, 40000}},
 			{Name: "request", Pkg: "./checks/c12", Run: "^TestRequests$", Rapid: true, Shards: [2]int{6, 12}, Checks: [2]int{3000, 30000}},
 			{Name: "request-bytes", Pkg: "./checks/c12", Run: "^TestRequestBytes$", Rapid: true, Shards: [2]int{4, 12}, Checks: [2]int{4000, 30000}},
 			{Name: "first-read-grid", Pkg: "./checks/c12", Run: "^TestFirstReadGrid$", Shards: [2]int{1, 1}},
+			{Name: "request-history", Pkg: "./checks/c12", Run: "^TestRequestHistory$", Rapid: true, Shards: [2]int{4, 12}, Checks: [2]int{1500, 12000}},
 			{Name: "server-client", Pkg: "./checks/c12", Run: "^TestServerClient$", Rapid: true, Shards: [2]int{2, 8}, Checks: [2]int{3000, 25000}},
 		},
 	},
@@ -155,12 +157,13 @@ var plans = map[string]Plan{
 	},
 	"C20": {
 		Level: "exploration",
-		Rule: "cases are (base multi-file Thrift program, edit script) committed as HEAD~ and HEAD of a scratch git repository: 1-5 files in nested directories with includes along a DAG; 0-7 edits drawn from 5 breaking kinds (remove service, remove method, add required field to an existing struct, optional->required, change a field's declared type name) and 14 compatible kinds (add optional field / method / service / struct / enum / constant / typedef / file / include, reorder, required->optional, delete struct, delete file, remove include); 13+3 enumerated pairs. The real thriftbreak binary is run in readable and --json mode (and again on reordered renderings). " +
+		Rule: "cases are (base multi-file Thrift program, edit script) committed as HEAD~ and HEAD of a scratch git repository: 1-5 files in nested directories with includes along a DAG; 0-7 edits drawn from 5 breaking kinds (remove service, remove method, add required field to an existing struct, optional->required on fields without a default and on fields whose old version carried a default value (the default is dropped with the edit), change a field's declared type name) and 14 compatible kinds (add optional field / method / service / struct / enum / constant / typedef / file / include, reorder, required->optional, delete struct, delete file, remove include); 15+3 enumerated pairs. The real thriftbreak binary is run in readable and --json mode (and again on reordered renderings). " +
 			"Oracle: multiset of (file, kind, subject names) parsed from the output == the multiset known by construction from the edit script; exit status != 0 iff non-empty. " +
 			"Non-trivial: >=1 breaking edit or >=2 compatible edits. Distinct: SHA-256 of the JSON case (all file texts of both versions).",
 		Assumptions: []string{
 			"the five message phrases and %q-quoted names are the tool's interface; a file attribution is correct if it is the repo-relative path or the base name",
 			"ambiguous edits (a name moved between files, required field added with a default, renames) are not generated",
+			"a field declared `required` together with a default value is compiled as not required by thriftrw; edits that end in (or start from) that shape are not generated because the statement does not say whether they count as 'required'",
 		},
 		Prebuild: []Prebuild{{Name: "thriftbreak", Pkg: "go.uber.org/thriftrw/cmd/thriftbreak"}},
 		Units: []Unit{
@@ -203,11 +206,12 @@ var plans = map[string]Plan{
 	},
 	"C16": {
 		Level: "fault_enumeration",
-		Rule: "cases are script sets for 1-3 scripted fake plugins (own framing / envelopes via internal/refcodec) run by the real thriftrw binary: per protocol step (handshake, generate, goodbye) x fault kind (ok, wrong name, wrong API version, feature missing, missing field, exception envelope, wrong envelope type, garbage frame, raw garbage, truncation at every byte offset of the reply frame, oversized length prefix, exit before read / after read / after reply) x write mode (whole, bytewise, drawn segments with pauses) x exit status x linger. Complete grids: truncation (210), fault (126), pairs (1764, thorough); random scripts; the public plugin.Main driven over a segmented byte stream. " +
-			"Oracle (history checking): each plugin's event trace is accepted by the protocol automaton; generate only after a conforming handshake; exactly one goodbye to every conforming plugin still reading; every started plugin saw EOF and exited before the host; host exit status != 0 iff some plugin failed, and then stderr names it. " +
+		Rule: "cases are script sets for 1-3 scripted fake plugins (own framing / envelopes via internal/refcodec) run by the real thriftrw binary: per protocol step (handshake, generate, goodbye) x fault kind (ok, wrong name, wrong API version, feature missing, missing field, exception envelope, wrong envelope type, garbage frame, raw garbage, truncation at every byte offset of the reply frame, oversized length prefix, exit before read / after read / after reply) x write mode (whole, bytewise, drawn segments with pauses) x advertised feature list of a conforming handshake ([SERVICE_GENERATOR], empty, only values the host does not know such as [2] / [0] / [7,9], those next to SERVICE_GENERATOR, repetitions) x exit status x linger. Complete grids: truncation (210), fault (162), pairs (2916, thorough); random scripts; the public plugin.Main driven over a segmented byte stream. " +
+			"Oracle (history checking): each plugin's event trace is accepted by the protocol automaton; generate only after a conforming handshake whose feature list contains SERVICE_GENERATOR; exactly one goodbye to every conforming plugin still reading; every started plugin saw EOF and exited before the host; host exit status != 0 iff some plugin failed, and then stderr names it. " +
 			"Non-trivial: >=1 deviation or >=2 plugins. Distinct: SHA-256 of the script set.",
 		Assumptions: []string{
 			"which fault kinds make a plugin 'failed' is fixed by harness/fplab.IsFailure (everything except ok, feature-missing, segmented writes, linger, exit-after-goodbye-reply)",
+			"a handshake advertising unknown feature values (alone or next to SERVICE_GENERATOR) is a conforming handshake, not a failure; only the 'only after' direction of the gate is asserted (whether generate is sent to an advertising plugin is C17's business)",
 			"one O_APPEND event log gives the global order of plugin events and the host-exit marker; 60 s ceiling (x2) for hangs",
 		},
 		Prebuild: []Prebuild{{Name: "thriftrw", Pkg: "go.uber.org/thriftrw"}, {Name: "fakeplugin", Pkg: "verif/harness/fakeplugin"}, {Name: "libplugin", Pkg: "verif/harness/libplugin"}},
